@@ -50,13 +50,13 @@ func configs(tier string) []conf {
 		{Name: "t17-q30x4-nop", LogN: 4, QBits: 30, NQ: 4, NP: 0, T: 17},
 		{Name: "t65537-q55x4-p55x2", LogN: 4, QBits: 55, NQ: 4, PBits: 55, NP: 2, T: 65537},
 		{Name: "t30b-q55x5-p55x2", LogN: 4, QBits: 55, NQ: 5, PBits: 55, NP: 2, T: t30},
-		{Name: "t60b-q61x4-p61x1", LogN: 4, QBits: 61, NQ: 4, PBits: 61, NP: 1, T: t60},
+		{Name: "t60b-q61x4-p61x1", LogN: 4, QBits: 60, NQ: 4, PBits: 60, NP: 1, T: t60, QAbove: true},
 	}
 	if tier == "thorough" {
 		base = append(base,
 			bgvu.Conf{Name: "t97-q55x5-p55x3", LogN: 4, QBits: 55, NQ: 5, PBits: 55, NP: 3, T: 97},
 			bgvu.Conf{Name: "t17-q55x4-p55x1", LogN: 4, QBits: 55, NQ: 4, PBits: 55, NP: 1, T: 17},
-			bgvu.Conf{Name: "t97-logn5-q30x4-p30x2", LogN: 5, QBits: 30, NQ: 4, PBits: 30, NP: 2, T: 193},
+			bgvu.Conf{Name: "t193-logn5-q30x4-p30x2", LogN: 5, QBits: 30, NQ: 4, PBits: 30, NP: 2, T: 193},
 		)
 	}
 	var r []conf
@@ -126,7 +126,16 @@ func getWorld(c *engine.Chooser, cf conf, scen string) *world {
 	w.L = p.MaxLevel()
 	kgen := rlwe.NewKeyGenerator(p)
 	w.sk = kgen.GenSecretKeyNew()
-	rlk := kgen.GenRelinearizationKeyNew(w.sk)
+	// Without auxiliary primes P the relinearization key is generated with a base-2^16 decomposition (the
+	// usual way to keep key-switching noise small without P). The combination "no P, no base-2 decomposition"
+	// is exercised by one dedicated leaf of the fail scenario.
+	var rlk *rlwe.RelinearizationKey
+	if cf.NP == 0 {
+		b2 := 16
+		rlk = kgen.GenRelinearizationKeyNew(w.sk, rlwe.EvaluationKeyParameters{BaseTwoDecomposition: &b2})
+	} else {
+		rlk = kgen.GenRelinearizationKeyNew(w.sk)
+	}
 	evk := rlwe.NewMemEvaluationKeySet(rlk)
 	w.ecd = bgv.NewEncoder(p)
 	w.enc = rlwe.NewEncryptor(p, w.sk)
